@@ -5,8 +5,11 @@ package refsn
 
 import (
 	"encoding/binary"
+	"encoding/hex"
+	"encoding/json"
 	"errors"
 	"fmt"
+	"unicode/utf8"
 )
 
 const (
@@ -457,4 +460,50 @@ func PlainAuth(user string, password []byte) []byte {
 	b := append([]byte{0}, user...)
 	b = append(b, 0)
 	return append(b, password...)
+}
+
+// JSON: plans and replay files must round-trip byte-exactly, but encoding/json replaces invalid
+// UTF-8 in strings. String fields that are not valid UTF-8 travel as hex in *_hex companions.
+type pktJSON Pkt
+
+type pktWire struct {
+	pktJSON
+	TopicHex   string `json:"topic_hex,omitempty"`
+	ClientHex  string `json:"cid_hex,omitempty"`
+	AMethodHex string `json:"amethod_hex,omitempty"`
+}
+
+func (p Pkt) MarshalJSON() ([]byte, error) {
+	w := pktWire{pktJSON: pktJSON(p)}
+	if !utf8.ValidString(p.TopicName) {
+		w.TopicHex, w.pktJSON.TopicName = hex.EncodeToString([]byte(p.TopicName)), ""
+	}
+	if !utf8.ValidString(p.ClientID) {
+		w.ClientHex, w.pktJSON.ClientID = hex.EncodeToString([]byte(p.ClientID)), ""
+	}
+	if !utf8.ValidString(p.AuthMethod) {
+		w.AMethodHex, w.pktJSON.AuthMethod = hex.EncodeToString([]byte(p.AuthMethod)), ""
+	}
+	return json.Marshal(w)
+}
+
+func (p *Pkt) UnmarshalJSON(b []byte) error {
+	var w pktWire
+	if err := json.Unmarshal(b, &w); err != nil {
+		return err
+	}
+	*p = Pkt(w.pktJSON)
+	if w.TopicHex != "" {
+		d, _ := hex.DecodeString(w.TopicHex)
+		p.TopicName = string(d)
+	}
+	if w.ClientHex != "" {
+		d, _ := hex.DecodeString(w.ClientHex)
+		p.ClientID = string(d)
+	}
+	if w.AMethodHex != "" {
+		d, _ := hex.DecodeString(w.AMethodHex)
+		p.AuthMethod = string(d)
+	}
+	return nil
 }
